@@ -59,6 +59,11 @@ CLAIMED["C15"] = dict(engine="refs", design="DESIGN.md 5 C15",
   note="Trusted: Coq kernel; Refs.v/Db.v; harness comparing addresses of fresh lookups (never dereferencing stale references); the kernel's mremap behaviour is the oracle flag of the model.",
   technique="Coq proof (log immutability; address stability relative to a may-move oracle, with refutation witness) + address/bytes observation on the implementation; known-findings file")
 
+CLAIMED["C14"] = dict(engine="sched", design="DESIGN.md 5 C14",
+  text="Coq theorems (3) on the two-step interleaving model: for EVERY schedule (any list of thread ids) and any thread programs, the responses at the linearization points (commit of writers, snapshot of readers) equal those of executing the operations one at a time in that order and the final state is the sequential final state; the shared state changes only at a commit step; whatever a snapshot reaches stays readable forever. Tied to the code with the verif hooks as pause points: a schedule controller parks 2-4 real threads at every point and releases one at a time (seeded), the recorded schedule yields each operation's linearization point, the operations are replayed sequentially in that order on the extracted Coq model, and every concurrent response and the final observation dump must equal the sequential ones; plus free-running multi-core runs judged by invariants (one winner of N identical submissions, consistent indexes, no torn reads). PARTIAL: memory model, LMDB reader table, remap hazard are outside the model.",
+  note="Trusted: Coq kernel; Conc.v/Db.v; hooks; the schedule controller (tracks who holds the LMDB write lock so that no thread is released into a blocking acquire); extraction; python linearization checker.",
+  technique="Coq proof of linearizability of an interleaving model + schedule exploration with sequential replay on the extracted model")
+
 checks = []
 for pid, c in sorted(CLAIMED.items()):
     checks.append({
